@@ -655,6 +655,8 @@ func runConc(e *env) {
 			}
 			for id, m := range seen {
 				if m[spb.AFTResult_FAILED] > 1 || m[spb.AFTResult_RIB_PROGRAMMED] > 1 || m[spb.AFTResult_FIB_PROGRAMMED] > 1 || (m[spb.AFTResult_FAILED] > 0 && m[spb.AFTResult_RIB_PROGRAMMED] > 0) {
+					// exactly-once per id is C06's clause whatever the schedule; C11 claims it as part of "answers every request"
+					e.report("C06", "duplicate-result", "operation answered more than once under concurrency", fmt.Sprintf("session %d id %d: %v", sn, id, m), false)
 					e.report("C11", "duplicate-result", "operation answered more than once under concurrency", fmt.Sprintf("session %d id %d: %v", sn, id, m), false)
 				}
 			}
